@@ -3,6 +3,11 @@
 # kind: rapid (default) | exhaustive | plain
 # quick/thorough: checks = total rapid cases over all shards; shards = processes; timeout = seconds per shard
 PARTS = {
+    "C06": [
+        {"test": "TestVfC06Recipients",
+         "quick": {"checks": 4000, "shards": 4, "timeout": 600},
+         "thorough": {"checks": 300000, "shards": 16, "timeout": 2400}},
+    ],
     "C09": [
         {"test": "TestVfC09Thresholds",
          "quick": {"checks": 4000, "shards": 4, "timeout": 600},
@@ -22,6 +27,9 @@ PARTS = {
         {"test": "TestVfC17aMcache",
          "quick": {"checks": 20000, "shards": 4, "timeout": 300},
          "thorough": {"checks": 800000, "shards": 16, "timeout": 1500}},
+        {"test": "TestVfC17bGossip",
+         "quick": {"checks": 4000, "shards": 4, "timeout": 600},
+         "thorough": {"checks": 300000, "shards": 16, "timeout": 2400}},
     ],
     "C02": [
         {"test": "TestVfC02aTimeCache",
@@ -65,6 +73,15 @@ PARTS = {
 LEVEL = {}  # default: exploration
 
 RULES = {
+    "C06": "direct-driven node under floodsub, randomsub and gossipsub (scoring through the application score, direct peers, flood publish "
+           "on/off, data-derived message IDs); histories (<= ~60 ops, <= 12 peers of all protocol versions) of arrivals, departures, remote "
+           "subscribe/unsubscribe/GRAFT/PRUNE, IDONTWANT for messages to come, score changes around the publish threshold, direct-peer "
+           "changes, heartbeats, join/leave, time advance, and publishes: local (also local-only) or remote from peer X with author X, "
+           "another peer or an unconnected key. Before each publish the must-send and may-send sets are computed from a snapshot by the "
+           "statement's rules; observed recipients must lie between them (exact size where the rule fixes it), every copy must equal the "
+           "accepted message byte for byte and verify under an independent implementation of the signature rule; fan-out sets are "
+           "checked across heartbeats (<= D, eligible members kept, topped up, expiry after FanoutTTL). Non-trivial: a publish with >= 3 "
+           "topic peers of >= 2 recipient classes. Distinct = case JSON.",
     "C09": "direct-driven gossipsub node with peer scoring through the application score, peer exchange on, optional gater, flood publish "
            "on/off, joined or fan-out only, small or large mesh; thresholds accepted by validation; 2-8 peers (all protocol versions, "
            "direct or not, inbound/outbound) whose scores are drawn from {each threshold, its two float neighbours, 0, +-0.5, +-1, "
@@ -90,7 +107,15 @@ RULES = {
            "deadline must be refused with PRUNE, penalised (1, or 2 inside the flood threshold of the last PRUNE) and extend the "
            "back-off; every PRUNE to a v1.1+ peer states the prune / unsubscribe back-off. Non-trivial: a graft opportunity or GRAFT "
            "receipt within a few seconds of a deadline, or a control message was dropped and retried. Distinct = case JSON.",
-    "C17": "(a) message cache alone: rapid sequences of put / get / get-for-peer / gossip-ids / shift (<= 60 ops, gossip <= history <= 8) "
+    "C17": "(b) direct-driven gossipsub node with small limits (MaxIHaveLength 2-5, MaxIHaveMessages 1-3, MaxIDontWant* 1-3, retransmission "
+           "1-3, IDONTWANT TTL 1-3, history 1-5 / gossip <= history, follow-up 0.5-3 s, size threshold 64 B): histories (<= ~50 ops) of "
+           "local and remote publishes (sizes below / exactly on / above the threshold), manual heartbeats, IHAVE / IWANT / IDONTWANT "
+           "with 1-8 ids (seen, unseen, never-existing, repeated) split over 1-3 control entries, late deliveries, time advance; every "
+           "clause of the statement judged on the wire per heartbeat epoch (IHAVE recipients, length and window; IWANT service window, "
+           "retransmission count, unwanted; requests only for unseen ids within the per-peer budget; IDONTWANT limits and TTL; IDONTWANT "
+           "emission rules; promise penalties need an overdue, missing request). Non-trivial: an event exactly at a window edge or a "
+           "counter exactly at its cap. "
+           "(a) message cache alone: rapid sequences of put / get / get-for-peer / gossip-ids / shift (<= 60 ops, gossip <= history <= 8) "
            "against a sliding-window model (retrievable for HistoryLength shifts, advertised for HistoryGossip, per-peer transmission "
            "counts); non-trivial = a query hits a message exactly at a window edge. (b) see part list. Distinct = distinct case JSON.",
     "C02": "(a) seen cache alone, both strategies, public timecache API under the virtual clock: sequences of Add/Has/advance over 4 ids "
@@ -126,6 +151,8 @@ RULES = {
 }
 
 ASSUMPTIONS = {
+    "C06": ["the node's message ID function is data-derived so that IDONTWANT can name a message before it exists",
+            "peers GRAFT only for topics they have subscribed to and a message is judged against the recipients the snapshot taken in the same instant allows"],
     "C09": ["scores are the application-specific score only (all other weights zero), so the harness knows each peer's exact score",
             "the router's IHAVE flood protection counts every control RPC of a peer per heartbeat; the positive IHAVE assertion is made only inside that budget"],
     "C07": ["scores are read from the router's scorer at heartbeat time and treated as an input (C10 checks the scorer itself)",
@@ -149,6 +176,12 @@ ASSUMPTIONS = {
 HOOK_COMMITS = ["407c3ed"]
 
 META = {
+    "C06": {
+        "text": "Stateful property-based testing with a must/may recipient oracle computed from snapshots, under all three routers; finds any "
+                "dropped exclusion or inclusion, wrong thresholds, rebuilt messages and fan-out churn within the generated bounds.",
+        "note": "Trusts the stub host and an independent 25-line signature verifier built on libp2p crypto; comm.go is bypassed.",
+        "technique": "stateful property-based testing (rapid) with set-inclusion oracle (must <= observed <= may) and byte-identity check",
+    },
     "C09": {
         "text": "Property-based testing with boundary-value score pools: every side of every threshold including equality and the adjacent "
                 "floats is probed with every RPC kind; finds < vs <= mistakes, missing direct exemptions, PX leaks, skipped record checks "
